@@ -274,8 +274,10 @@ def run(ctx):
 
     for i in range(ctx.pick(15, 150)):
         n = r.choice([1, 2, 3, 4, 6])
-        ch = chains.random_chain(r, n, max_mult=2)
-        dc = DecayChain(ch["mother"], {k: DecayMode(0 if (i + j) % 4 == 0 else (v[0] / 3 + 0.1 + 0.2 if (i + j) % 4 == 1 else v[0]), v[1], model="PHSP")
+        ch = chains.random_chain(r, n, max_mult=2, empty=0.12)
+        # branching fractions as int (0, 1) and float; modes with and without user metadata next to the model information
+        dc = DecayChain(ch["mother"], {k: DecayMode(((i + j) % 8 // 4) if (i + j) % 4 == 0 else (v[0] / 3 + 0.1 + 0.2 if (i + j) % 4 == 1 else v[0]), v[1], model="PHSP",
+                                                    **({"study": "toy", "year": 2019} if (i + j) % 3 == 0 else {}))
                                        for j, (k, v) in enumerate(ch["types"].items())})
         d = dc.to_dict()
         ctx.hit("from-class-representation")
